@@ -35,7 +35,15 @@ def random_mps(rng, L, dims, chi, deficient, alias=None, rescale=None):
         r = 1 if i == L - 1 else bonds[i]
         t = rng.normal(size=(dims[i], lft, r)) + 1j * rng.normal(size=(dims[i], lft, r))
         if deficient and r > 1:
-            t[:, :, -1] = t[:, :, 0]  # two equal columns: the bond is rank deficient
+            # the bond is rank deficient: two equal columns, or an unused (zero) bond index — at the end of the bond index or in its
+            # middle, followed by an independent direction (unpivoted QR does not reveal the rank then)
+            how = (i + L + r) % 3 if r >= 3 else 0
+            if how == 0:
+                t[:, :, -1] = t[:, :, 0]
+            elif how == 1:
+                t[:, :, 1] = t[:, :, 0]
+            else:
+                t[:, :, 1] = 0.0
         tens.append(t)
     if rescale and L >= 3:
         # a legal but unusual gauge: one tensor tiny, another huge (product of the scales = 1), or a state of tiny norm
